@@ -1,7 +1,9 @@
 package spine
 
 import (
+	"sync"
 	"testing"
+	"time"
 
 	"github.com/enbility/spine-go/model"
 )
@@ -62,5 +64,39 @@ func TestReplay_C09_RemoveBinding_OtherPeerUntouched(t *testing.T) {
 	}
 	if n := len(bm.Bindings(a.dev)); n != 0 {
 		t.Fatalf("C09 violated: peer A still has %d bindings", n)
+	}
+}
+
+// obligation post#atomic of AddBinding (C09): two peers asking at the same time for a binding on one server feature:
+// at most one is granted (a local server feature has at most one binding).
+func TestReplay_C09_ConcurrentAddBindingOneServerFeature(t *testing.T) {
+	deadline := time.Now().Add(3 * time.Second)
+	rounds := 0
+	for time.Now().Before(deadline) {
+		rounds++
+		w := rpNewWorld(t, 2)
+		srv := w.localFeature(model.FeatureTypeTypeLoadControl, model.RoleTypeServer)
+		var reqs []model.BindingManagementRequestCallType
+		for _, p := range w.peers {
+			cf := p.feature(model.FeatureTypeTypeLoadControl, model.RoleTypeClient)
+			reqs = append(reqs, rpBindReq(cf.Address(), srv.Address(), model.FeatureTypeTypeLoadControl))
+		}
+		start := make(chan struct{})
+		var wg sync.WaitGroup
+		granted := make([]bool, len(w.peers))
+		for i, p := range w.peers {
+			wg.Add(1)
+			go func(i int, p *rpPeer) {
+				defer wg.Done()
+				<-start
+				granted[i] = w.local.BindingManager().AddBinding(p.dev, reqs[i]) == nil
+			}(i, p)
+		}
+		close(start)
+		wg.Wait()
+		n := len(w.local.BindingManager().(*BindingManager).BindingsOnFeature(*srv.Address()))
+		if n > 1 || (granted[0] && granted[1]) {
+			t.Fatalf("round %d: %d bindings on one local server feature after two concurrent binding requests (granted: %v)", rounds, n, granted)
+		}
 	}
 }
